@@ -150,14 +150,20 @@ def run_property(pid, tier, seed):
     try:
         rng = random.Random(seed * 1000003 + int(pid[1:]))
         # ---- 1. proof obligations
-        ok_build, buildlog = C.coq_build()
-        forbidden = C.scan_forbidden()
-        cone = list(mod.COQ_FILES) + ["Properties.v"]
-        total, done, per = C.count_obligations(cone)
-        assumptions = C.print_assumptions(mod.THEOREMS, work)
-        bad_thms = {t: a for t, a in assumptions.items()
-                    if not a.startswith("Closed under the global context")}
-        proof_ok = (total == done) and not bad_thms and not forbidden
+        for attempt in (1, 2):
+            # checked twice before it counts as broken: a coqc killed by a timeout on an
+            # overloaded machine is not a broken proof
+            ok_build, buildlog = C.coq_build()
+            forbidden = C.scan_forbidden()
+            cone = list(mod.COQ_FILES) + ["Properties.v"]
+            total, done, per = C.count_obligations(cone)
+            assumptions = C.print_assumptions(mod.THEOREMS, work)
+            bad_thms = {t: a for t, a in assumptions.items()
+                        if not a.startswith("Closed under the global context")}
+            proof_ok = (total == done) and not bad_thms and not forbidden
+            if proof_ok or forbidden:
+                break
+            C.log("proof obligations not discharged at attempt %d" % attempt)
         proof_note = ""
         if not proof_ok:
             proof_note = "proof obligations not discharged: " + json.dumps(
@@ -198,10 +204,19 @@ def run_property(pid, tier, seed):
                 corr_broken.append((part, None, "harness could not be built against the current tree:\n" + bout[-3000:]))
                 continue
             inputs = part.generate(rng, tier)
-            try:
-                ev = eval_part(part, binary, inputs, work, part.name)
-            except Exception as e:
-                corr_broken.append((part, None, "correspondence run failed: %s" % e))
+            ev = None
+            for attempt in (1, 2):
+                # an infrastructure failure (harness timeout under load, a killed coqc) is retried
+                # once; one that persists is reported as a broken correspondence
+                try:
+                    ev = eval_part(part, binary, inputs, work, part.name if attempt == 1 else part.name + "_retry")
+                    break
+                except Exception as e:
+                    C.log("correspondence run failed (attempt %d): %s" % (attempt, e))
+                    cov.setdefault("retried_runs", []).append({"part": part.name, "error": str(e)[:300]})
+                    err = e
+            if ev is None:
+                corr_broken.append((part, None, "correspondence run failed: %s" % err))
                 continue
             # a failure must reproduce: the failing cases are run once more in a fresh harness
             # process and only what fails again (same kind) is kept; a replay that does not
